@@ -17,7 +17,7 @@ VERIF = os.path.dirname(os.path.dirname(os.path.abspath(__file__)))
 COQDIR = os.path.join(VERIF, "coq")
 WORK = os.path.join(VERIF, ".work")
 
-PRELUDE = """From Coq Require Import String List QArith ZArith Bool.
+PRELUDE = """From Coq Require Import String List QArith Qabs ZArith Bool.
 From Optyx Require Import Syntax {imports} Harness.
 Import ListNotations.
 Open Scope string_scope.
